@@ -71,12 +71,16 @@ impl ClassBody {
 
 impl Dependencies for ClassBody {
     fn supplies(&self) -> Vec<Dependency> {
-        let mut features_sup: Vec<Dependency> =
-            self.features.iter().flat_map(|x| x.supplies()).collect();
-
-        features_sup.append(&mut self.constructor.supplies());
-
-        features_sup
+        // What the members of a class supply to EACH OTHER are its fields. The parameters of a method or of
+        // the constructor are visible in that one body only (and are already taken out of that body's own
+        // dependencies): counted here, a parameter `k` of one method hid the module variable `k` that
+        // another method reads, which then was not captured and was looked up in whatever frame was
+        // running when the object was made.
+        self.features
+            .iter()
+            .filter(|x| matches!(x, ClassFeature::Variable(..)))
+            .flat_map(|x| x.supplies())
+            .collect()
     }
 
     fn dependencies(&self) -> Vec<Dependency> {
